@@ -4,7 +4,7 @@ import BigtoolsModel.FView
 import BigtoolsModel.Chunker
 import BigtoolsModel.IndexerFix
 import BigtoolsModel.AutoSqlNTest
-import BigtoolsModel.Merge
+import BigtoolsModel.MergePost
 import BigtoolsModel.Fill
 /-! Driver commands for the small kinds: staging buffer, FileView, chunker, indexer, autoSql, merge, fill.
     Always the repaired (`fixed = true`) variants: these are the ones the universal theorems are about. -/
@@ -203,7 +203,14 @@ def mergeCase (W : Nat) (c : Case) : List String :=
       if nat (l.getD 1 "") == k then
         (f32Int? (hexNat (l.getD 4 "0"))).map fun v => ⟨nat (l.getD 2 ""), nat (l.getD 3 ""), v⟩
       else none
-  ["M" ++ String.join ((MG.merge W streams).map fun x => " " ++ valText x.s x.e x.v)]
+  let merged := MG.merge W streams
+  let clip := c.opt "clip" "none"
+  let adj := c.opt "adjust" "none"
+  let thr := c.opt "thr" "none"
+  let res := if clip == "none" && adj == "none" && thr == "none" then merged
+    else MG.post (if clip == "none" then none else some (int clip)) (if adj == "none" then 0 else int adj)
+      (if thr == "none" then 0 else int thr) merged
+  ["M" ++ String.join (res.map fun x => " " ++ valText x.s x.e x.v)]
 
 def fillCase (c : Case) : List String :=
   let xs : List FL.Val := (c.records "V").filterMap fun l =>
